@@ -178,6 +178,7 @@ theorem acc_ne_bad {q : DQ} {p : List Micro} (h : runQ discStep q p = .out) : q 
 theorem out_step {m : Micro} (h : discStep .out m ≠ .bad) :
     (m = .acq ∧ discStep .out m = .idle) ∨ (m ≠ .acq ∧ m ≠ .rel ∧ discStep .out m = .out ∧ ∀ r sh, effect m r sh = (sh, r)) := by
   cases m <;> simp [discStep, effect] at h ⊢
+  case ctor w => subst h; simp
 
 theorem in_acq {q : DQ} (hq : q ≠ .out) : discStep q .acq = .bad := by
   cases q <;> simp [discStep] at hq ⊢
@@ -339,7 +340,9 @@ theorem inside_iff : ∀ (p : List Micro) (q : DQ), runQ discStep q p = .out →
     have hnb := acc_ne_bad h
     have := ih _ h
     cases q <;> cases m <;> simp only [inside, discStep] at hnb this ⊢ <;> (try simp at hnb) <;> (try (simp at this ⊢; try exact this))
-    all_goals (split at this <;> simp_all)
+    all_goals first
+      | (subst hnb; simpa using this)
+      | (split at this <;> simp_all)
 
 theorem dictView_eq_of_nodup : ∀ (l : List Node), (keys l).Nodup → dictView l = l := by
   intro l
@@ -399,6 +402,9 @@ theorem effect_cnt (m : Micro) (reg : Nat) (sh : Shared) (g : Nat) (hd : isDelet
   cases m <;> simp [effect, addsOf, isDelete] at hd ⊢
   · exact cnt_addIds ..
   · exact cnt_addIds ..
+  · split
+    · rename_i h; simp [h.2, cnt]
+    · rfl
 
 /-- conservation: nodes present + nodes still to be inserted by the remaining programs -/
 structure Acct (g n T : Nat) (s : Sys) : Prop where
@@ -479,6 +485,45 @@ theorem total_finished {g : Nat} {thr : Nat → Thread} (h : ∀ t, (thr t).prog
     unfold total at ih ⊢
     rw [List.range_succ, List.map_append, List.sum_append, ih]
     simp [h n, addsOf]
+
+
+theorem ctor_true_bad (q : DQ) : discStep q (.ctor true) = .bad := by
+  cases q <;> simp [discStep]
+
+theorem effect_gen (m : Micro) (r : Nat) (sh : Shared) (h : m ≠ .ctor true) : (effect m r sh).1.gen = sh.gen := by
+  cases m <;> simp [effect]
+  case ctor w => cases w <;> simp at h ⊢
+
+/-- a step of a thread whose remaining program is accepted never replaces the store -/
+theorem Inv.step_gen {qs : Nat → DQ} {s s' : Sys} {t : Nat} (h : Inv qs s) (hs : Sched.step t s = some s') :
+    s'.sh.gen = s.sh.gen := by
+  unfold Sched.step at hs
+  split at hs
+  · cases hs
+  · rename_i m rest hp
+    have hacc := h.acc t
+    rw [hp, runQ_cons] at hacc
+    have hnb := acc_ne_bad hacc
+    have hm : m ≠ .ctor true := fun e => by subst e; exact hnb (ctor_true_bad _)
+    split at hs
+    · split at hs
+      · cases hs; rfl
+      · cases hs
+    · split at hs
+      · split at hs <;> cases hs <;> rfl
+      · cases hs; exact effect_gen m _ _ hm
+
+theorem Inv.run_gen (sched : List Nat) : ∀ {qs : Nat → DQ} {s : Sys}, Inv qs s → (Sched.run sched s).sh.gen = s.sh.gen := by
+  induction sched with
+  | nil => intro qs s _; rfl
+  | cons t ts ih =>
+    intro qs s h
+    simp only [Sched.run]
+    split
+    · exact ih h
+    · rename_i s' hs
+      obtain ⟨qs', h'⟩ := h.step hs
+      rw [ih h', h.step_gen hs]
 
 
 end FimVerif.Sched
